@@ -113,7 +113,7 @@ def ensure(repo=REPO, variant="lib"):
             olds = sorted(
                 (p for p in glob.glob(os.path.join(CACHE, "*")) if os.path.isdir(p)), key=os.path.getmtime
             )
-            for old in olds[:-3]:
+            for old in olds[:-12]:
                 shutil.rmtree(old, ignore_errors=True)
             tmp = d + ".tmp"
             shutil.rmtree(tmp, ignore_errors=True)
